@@ -44,6 +44,13 @@ def undecidedWhy (a b : Prog) : String :=
     "FAIL constants-differ:same-structure-but-different-constants-and-nothing-can-be-evaluated"
   else "FAIL undecided:structure-differs-and-nothing-can-be-evaluated"
 
+/-- an undecided comparison is a failure (the tie is broken) EXCEPT when thick constants are involved: the last-resort
+    comparison represents them by their midpoints, which a legitimate folding of the constant part moves (DESIGN §6.3) -/
+def thickAware (as bs : List Prog) (v : Verdict) : Verdict :=
+  match v with
+  | .ok .undecided => if as.any hasThick || bs.any hasThick then .ok .thick else v
+  | _ => v
+
 def verdictStr : Verdict → String
   | .ok .undecided => "FAIL undecided:structure-differs-and-nothing-can-be-evaluated"
   | .ok l => "ok " ++ l.tag
@@ -91,7 +98,8 @@ def cmpSys (strict : Bool) (a b : SysDump) (pts : List (List Rat)) : Option Stri
   let goalV : List (String × Verdict) ←
     (if a.goal == "-" && b.goal == "-" then pure []
      else if a.goal == "-" || b.goal == "-" then pure [("goal", Verdict.fail "present-on-one-side-only")]
-     else do pure [("goal", cmpExpr (← parseProg a.goal) (← parseProg b.goal) nv pts)])
+     else do let ga ← parseProg a.goal; let gb ← parseProg b.goal
+             pure [("goal", thickAware [ga] [gb] (cmpExpr ga gb nv pts))])
   if strict then
     let ca ← parseCtrs a.ctrs
     let cb ← parseCtrs b.ctrs
@@ -99,7 +107,7 @@ def cmpSys (strict : Bool) (a b : SysDump) (pts : List (List Rat)) : Option Stri
     let cv := (List.zip ca cb).zipIdx.map fun (p : ((String × Prog) × (String × Prog)) × Nat) =>
       (s!"constraint{p.2}",
         if p.1.1.1 != p.1.2.1 then Verdict.fail s!"comparison-differs-{p.1.1.1}-{p.1.2.1}"
-        else cmpExpr p.1.1.2 p.1.2.2 nv pts)
+        else thickAware [p.1.1.2] [p.1.2.2] (cmpExpr p.1.1.2 p.1.2.2 nv pts))
     return combine (goalV ++ cv)
   else
     if a.ops != b.ops then return s!"FAIL comparison-operators-differ {a.ops} / {b.ops}"
@@ -107,7 +115,7 @@ def cmpSys (strict : Bool) (a b : SysDump) (pts : List (List Rat)) : Option Stri
     if a.fctrs == "-" || b.fctrs == "-" then return "FAIL constraints-present-on-one-side-only"
     let fa ← parseProg a.fctrs
     let fb ← parseProg b.fctrs
-    return combine (goalV ++ [("constraints", cmpFlat [fa] [fb] nv pts)])
+    return combine (goalV ++ [("constraints", thickAware [fa] [fb] (cmpFlat [fa] [fb] nv pts))])
 
 def isRejection' (o : String) : Bool := o == "syntaxerror"
 
@@ -129,7 +137,7 @@ def opsMinibex (op : String) (ins outs : List String) : Option String :=
       let pts ← parsePts pts
       let a ← parseProg p1
       let b ← parseProg p2
-      pure (match cmpExpr a b nv pts with
+      pure (match thickAware [a] [b] (cmpExpr a b nv pts) with
         | .ok .undecided => undecidedWhy a b
         | v => verdictStr v)
     | _ => none
